@@ -17,7 +17,8 @@ def run(tier, seed):
     v.add_tlc(res)
     if not res.ok:
         v.fail_machinery("MC_Topology did not pass: %s" % (res.violated or res.out[-800:]))
-    traces, failed = gridprops.run(v, "C06", tier)
+    from .. import campaign
+    traces, failed = gridprops.run(v, "C06", tier, names=campaign.campaign(tier) + ["lsn_orth_rev_cap"])
     clean = [t for t in traces if not any(gridprops.clause_prop(c) == "C06" for c, _ in failed.get(t["id"], ())) and t["topo"] == "LSN"]
     if clean:
         a = copy.deepcopy(clean[0]); a["id"] = 9001
